@@ -166,3 +166,48 @@ func VerifH_C05_api_session_growth() {
 	vrt.Covered("session-growth-checked")
 	_ = f.Close()
 }
+
+// every global-heap object lies inside its collection: elements around the collection size (see C12) checked at the
+// structure level — collection size field covers header + objects, object sizes consistent with the bytes stored
+func VerifH_C05_api_vlen_collection_bounds() {
+	vrt.LoopBound(20000)
+	lens := []int{4048, 4064, 4065, 4072, 4080, 4081}
+	L := lens[vrt.Choice(len(lens))]
+	big := make([]byte, L)
+	for i := range big {
+		big[i] = 'a' + byte(i%23)
+	}
+	big[0] = 'A' + vrt.U8()%26
+	data := []string{string(big), []string{"", "tail"}[vrt.Choice(2)]}
+	f, d := verifWriteReopen("c05v.h5", 2, VLenString, []uint64{2}, data)
+	raw, err := os.ReadFile("c05v.h5")
+	vrt.AssertNoErr(err, "raw-read-ok")
+	elems, err := verifVLenElements(d, 2)
+	vrt.AssertNoErr(err, "vlen-elements-resolve")
+	if err == nil {
+		for i := range data {
+			vrt.Assert(string(elems[i]) == data[i], "vlen-element-bytes-exact")
+		}
+	}
+	// walk the file for collections: signature "GCOL", version 1, size at +8; everything must lie inside the file
+	for off := 0; off+16 <= len(raw); off += 8 {
+		if raw[off] == 'G' && raw[off+1] == 'C' && raw[off+2] == 'O' && raw[off+3] == 'L' && raw[off+4] == 1 {
+			size := binary.LittleEndian.Uint64(raw[off+8 : off+16])
+			vrt.Assert(uint64(off)+size <= uint64(len(raw)), "collection-inside-file")
+			// objects: id(2) refs(2) reserved(4) size(8) data (8-aligned)
+			p := uint64(off) + 16
+			end := uint64(off) + size
+			for p+16 <= end {
+				id := binary.LittleEndian.Uint16(raw[p : p+2])
+				osz := binary.LittleEndian.Uint64(raw[p+8 : p+16])
+				if id == 0 {
+					break // free-space marker
+				}
+				vrt.Assert(p+16+osz <= end, "object-inside-collection")
+				p += 16 + (osz+7)/8*8
+			}
+		}
+	}
+	vrt.Covered("collections-walked")
+	_ = f.Close()
+}
